@@ -142,8 +142,8 @@ Definition cali_entry (d : desc) (b : bytes) (vert : bool) (i : Z) : Z * Z :=
   | CaliRs16 =>
       if vert then
         let v := be24 b (d_off_difop_pitch_cali d + 3 * i) in
-        (* (uint16_t)(v * 0.01): double product, truncation; out-of-range conversion behaves as mod 2^16 on x86-64 (UB, see D19) *)
-        let v2 := (dy_trunc (dy_mul_r 53 (dy_of_Z v) d001)) mod 65536 in
+        (* (uint16_t)(v * 0.01) in double arithmetic, saturated at 65535 (the 24-bit value may not fit) *)
+        let v2 := Z.min 65535 (dy_trunc (dy_mul_r 53 (dy_of_Z v) d001)) in
         ((if i <? 8 then 1 else 0), v2)
       else (0, 0)
   | CaliRs32 =>
